@@ -1204,6 +1204,12 @@ func (se *specEnv) resolveType(ts string) types.Type {
 		}
 		return nil
 	}
+	if strings.HasPrefix(ts, "[]") {
+		if el := se.resolveType(ts[2:]); el != nil {
+			return types.NewSlice(el)
+		}
+		return nil
+	}
 	if obj := types.Universe.Lookup(ts); obj != nil {
 		if tn, ok := obj.(*types.TypeName); ok {
 			return tn.Type()
